@@ -25,52 +25,52 @@ Proof.
   apply in_app_iff. right. exact H.
 Qed.
 
-Lemma fold_all_init ch ul cls :
-  (forall cl, In cl cls -> exists v, classify ch ul (snd cl) = DInit v) ->
-  forall cm um, exists um', fold_left (step ch ul) cls (Some (cm, um)) = Some (cm, um').
+Lemma fold_all_init ch ul H cls :
+  (forall cl, In cl cls -> exists v, classify ch ul H (snd cl) = DInit v) ->
+  forall cm um, exists um', fold_left (step ch ul H) cls (Some (cm, um)) = Some (cm, um').
 Proof.
-  induction cls as [|cl t IH]; intros H cm um; cbn [fold_left].
+  induction cls as [|cl t IH]; intros H0 cm um; cbn [fold_left].
   - eauto.
-  - destruct (H cl (or_introl eq_refl)) as [v Hv]. cbn [step]. rewrite Hv.
-    apply IH. intros c Hc. apply H. now right.
+  - destruct (H0 cl (or_introl eq_refl)) as [v Hv]. cbn [step]. rewrite Hv.
+    apply IH. intros c Hc. apply H0. now right.
 Qed.
 
-Lemma fold_all_drop ch ul cls :
-  (forall cl, In cl cls -> classify ch ul (snd cl) = DDrop) ->
-  forall st, fold_left (step ch ul) cls (Some st) = Some st.
+Lemma fold_all_drop ch ul H cls :
+  (forall cl, In cl cls -> classify ch ul H (snd cl) = DDrop) ->
+  forall st, fold_left (step ch ul H) cls (Some st) = Some st.
 Proof.
-  induction cls as [|cl t IH]; intros H [cm um]; cbn [fold_left]; auto.
-  cbn [step]. rewrite (H cl (or_introl eq_refl)). apply IH. intros c Hc. apply H. now right.
+  induction cls as [|cl t IH]; intros H0 [cm um]; cbn [fold_left]; auto.
+  cbn [step]. rewrite (H0 cl (or_introl eq_refl)). apply IH. intros c Hc. apply H0. now right.
 Qed.
 
 (* nothing committed for this file and every claimed line still unstaged: the claims are
    carried unchanged (humans dropped) and nothing goes to the note *)
-Theorem carry_unchanged attrs U Pu :
+Theorem carry_unchanged attrs U H :
   StronglySorted N.lt U -> (forall a w, claim attrs w a -> In w U) ->
-  exists ini, split_file attrs [] U Pu = SOk [] ini /\
+  exists ini, split_file attrs [] U H = SOk [] ini /\
     (forall a w, init_lists ini a w = true <-> a <> human /\ claim attrs w a) /\
     NoDup (init_lines ini).
 Proof.
   intros HU Hcl. unfold split_file. cbv zeta.
   change (compress_lines []) with (@nil lrange).
-  assert (Hul : unstaged_lines [] (compress_lines U) (compress_lines Pu) = U).
+  assert (Hul : unstaged_lines [] (compress_lines U) H = U).
   { unfold unstaged_lines, filter_unstaged. rewrite expand_compress_any. now apply isort_id. }
   rewrite Hul.
-  assert (Hinit : forall cl, In cl (claims attrs) -> classify [] U (snd cl) = DInit (snd cl)).
+  assert (Hinit : forall cl, In cl (claims attrs) -> classify [] U H (snd cl) = DInit (snd cl)).
   { intros [a w] Hin. cbn [snd]. unfold classify.
     assert (Hm : mem w U = true) by (apply mem_In; eauto). now rewrite Hm. }
-  destruct (fold_all_init [] U (claims attrs)) with (cm := @nil (list N * list N)) (um := @nil (list N * list N))
+  destruct (fold_all_init [] U H (claims attrs)) with (cm := @nil (list N * list N)) (um := @nil (list N * list N))
     as [um Hf]; [intros cl Hin; eexists; now apply Hinit|].
-  destruct (fold_step_spec [] U (claims attrs) [] []) as (cm' & um' & Hf' & _ & Hum & _ & Hn2).
+  destruct (fold_step_spec [] U H (claims attrs) [] []) as (cm' & um' & Hf' & _ & Hum & _ & Hn2).
   { intros cl Hin. rewrite (Hinit cl Hin). discriminate. }
   unfold amap in *. rewrite Hf' in Hf. inversion Hf; subst cm' um'. rewrite Hf'.
   specialize (Hn2 (NoDup_nil _)).
   exists (finish_initial um). split; [reflexivity|]. split.
   - intros a w. rewrite (init_lists_finish _ _ _ Hn2), Hum. cbn [alookup In].
-    split; intros [Hh H]; split; auto.
-    + destruct H as [[]|(w' & Hw & Hc)]. pose proof (Hinit (a, w') Hw) as Hi. cbn [snd] in Hi.
+    split; intros [Hh Hx]; split; auto.
+    + destruct Hx as [[]|(w' & Hw & Hc)]. pose proof (Hinit (a, w') Hw) as Hi. cbn [snd] in Hi.
       rewrite Hi in Hc. inversion Hc; subst. exact Hw.
-    + right. exists w. split; [exact H|]. exact (Hinit (a, w) H).
+    + right. exists w. split; [exact Hx|]. exact (Hinit (a, w) Hx).
   - rewrite init_lines_finish, note_lines_finish. apply NoDup_keyed; [now apply entries_nodup|].
     intros e _. apply sorted_lt_NoDup, sort_dedup_sorted.
 Qed.
@@ -81,16 +81,16 @@ Proof.
   unfold split_file. cbv zeta. change (compress_lines []) with (@nil lrange).
   change (unstaged_lines [] [] []) with (@nil N).
   rewrite fold_all_drop; [reflexivity|].
-  intros cl _. unfold classify. cbn [mem]. unfold count_lt. cbn [filter length N.of_nat].
-  destruct (N.ltb_spec (snd cl) 0); [lia|]. reflexivity.
+  intros cl _. unfold classify, to_commit_line. cbn [mem sum_before].
+  destruct (N.ltb_spec (snd cl + 0) 0); reflexivity.
 Qed.
 
 (* C04_carry: a file named by the INITIAL of the parent's working log, which this commit does not
    touch (no committed hunk) and whose claimed lines are all still uncommitted, keeps exactly
    its non-human claims in the next INITIAL -- whatever else happened (cp_files), for every keep *)
-Theorem carry cps ini_files keep f attrs U Pu :
+Theorem carry cps ini_files keep f attrs U H :
   In f ini_files -> StronglySorted N.lt U -> (forall a w, claim attrs w a -> In w U) ->
-  exists ini, post_commit_file cps ini_files keep f attrs [] U Pu = SOk [] ini /\
+  exists ini, post_commit_file cps ini_files keep f attrs [] U H = SOk [] ini /\
     (forall a w, init_lists ini a w = true <-> a <> human /\ claim attrs w a) /\
     NoDup (init_lines ini).
 Proof.
@@ -100,9 +100,9 @@ Proof.
 Qed.
 
 (* and the converse direction of the dependency: outside the pathspecs everything is lost *)
-Theorem not_in_pathspecs_forgotten cps ini_files keep f attrs K U Pu :
+Theorem not_in_pathspecs_forgotten cps ini_files keep f attrs K U H :
   path_mem f (post_commit_pathspecs cps ini_files keep) = false ->
-  post_commit_file cps ini_files keep f attrs K U Pu = SOk [] [].
+  post_commit_file cps ini_files keep f attrs K U H = SOk [] [].
 Proof.
-  intros H. unfold post_commit_file, hunks_seen. rewrite H. apply unseen_file_forgotten.
+  intros H0. unfold post_commit_file, hunks_seen. rewrite H0. apply unseen_file_forgotten.
 Qed.
